@@ -112,12 +112,14 @@ def pratt_rules(check: Check, repo: Repo) -> None:
         calls = [n for s in br[role].body for n in ast.walk(s) if isinstance(n, ast.Call) and ast.unparse(n.func) == meth]
         ok = bool(calls) and [ast.unparse(a) for a in calls[0].args] == want_args
         ob("P5", f"{role}: builder called as {meth}({', '.join(want_args)})", f"{role}: builder arguments are {[ast.unparse(a) for a in calls[0].args] if calls else None}", ok)
-    # Stream
-    nxt = repo.func(PAIRS_REL, "Stream.next")
-    src = ast.unparse(nxt)
-    ok = "self.pos += 1" in src and "self.pairs[self.pos]" in src and src.index("self.pairs[self.pos]") < src.index("self.pos += 1")
-    check.oblige("STREAM", f"{PAIRS_REL}::Stream.next", "next() returns pairs[pos] and advances by one" if ok else "Stream.next does not return pairs[pos] and then advance by one", ok)
-    pk = ast.unparse(repo.func(PAIRS_REL, "Stream.peek"))
-    ok = "self.pos +=" not in pk and "self.pos -=" not in pk and "self.pairs[self.pos]" in pk
-    check.oblige("STREAM", f"{PAIRS_REL}::Stream.peek", "peek() returns pairs[pos] without advancing" if ok else "Stream.peek advances or does not return pairs[pos]", ok)
+    # Stream: decided semantically on model streams (shared with C06's accessor check)
+    from ..objmodel import ClassModel
+    from ..pairsem import check as sem_check
+
+    n, bad = sem_check(ClassModel(repo, PAIRS_REL, PAIRS_REL), 1)
+    check.count("stream_model_forests", n)
+    for acc, good in (("Stream.next", "next() returns pairs[pos] and advances by one, None at the end"), ("Stream.peek", "peek() returns what the following next() returns, without advancing"), ("Stream.backup", "backup() steps back one pair")):
+        why = bad.get(acc) or bad.get("Stream")
+        sig = f"{acc} does not step through the pairs one at a time"
+        check.oblige("STREAM", f"{PAIRS_REL}::{acc}", good if why is None else sig, why is None, finding=Finding("STREAM", f"{PAIRS_REL}::{acc}", sig, f"{sig}: {why}", {}))
     check.floor("operator_branches", 3)
